@@ -34,7 +34,7 @@ def gen_cases(tier, seed):
         if fam == "buffer-stress" or i % 3 == 0:
             cfg["cache"] = int(rng.choice([4096, 8192, 16384, 32768, 65536]))
             if i % 2:
-                cfg["acc"] = str(rng.choice(["ethos-u65-256", "ethos-u65-512"]))
+                cfg["acc"] = str(rng.choice(["ethos-u65-256", "ethos-u65-512", "ethos-u65-512"]))
                 cfg["mode"] = None
 
     cs = campaign.gen_cases(tier, seed, 8, 150, 4000, families=[f for f in fams if f != "twins"], cfg_hook=hook)
@@ -413,13 +413,68 @@ def run_drive(case):
 
 
 # ------------------------------------------------------------------------------------------------------------------ campaign
+def check_streams(log, mon):
+    """what is shipped: every weight DMA of a compiled stream must copy the whole (all cores) slice it is meant to copy, and every convolution's
+    per-core weight / scale address ranges must be the recorded ranges of its slice (inside the bytes that DMA delivered when the weights are buffered)"""
+    from ethosu.vela.high_level_command_stream import DMA, NpuStripe
+    from ethosu.vela.tensor import TensorPurpose
+    from ethosu.vela.weight_compressor import WeightKey
+
+    from vv import decode
+
+    c = mon.counters
+    for call in log.calls:
+        events, _ = decode.decode_stream(call["words"])
+        opev = [e for e in events if e.kind in ("op", "dma")]
+        if len(opev) != len(call["ops"]):
+            continue
+        delivered = {}  # buffer tensor equivalence id -> (dst address, length, depth)
+        ncores = call["arch"].ncores
+        for ev, apiop in zip(opev, call["ops"]):
+            cmd = call["op_to_cmd"].get(apiop)
+            if ev.kind == "dma" and isinstance(cmd, DMA) and cmd.in_tensor.purpose == TensorPurpose.Weights:
+                d = decode.dma_fields(ev.op)
+                depth = int(cmd.box.start_coord[-1])
+                rs = [cmd.in_tensor.encoded_ranges.get(WeightKey(core, depth)) for core in range(ncores)]
+                rs = [r for r in rs if r is not None]
+                if not rs:
+                    continue
+                c["weight_dmas_checked"] = c.get("weight_dmas_checked", 0) + 1
+                span = sum(max(wsref.range_extent(r, True), wsref.round_up(r.total_bytes, 16)) for r in rs)
+                if d["length"] < span:
+                    mon.v("weight-dma-shorter-than-the-slice-ranges", "DMA of depth slice %d of %s copies %d bytes, the %d core range(s) of the slice span %d bytes" % (
+                        depth, cmd.in_tensor.name, d["length"], len(rs), span))
+                if d["src"] != cmd.in_tensor.address + rs[0].offset:
+                    mon.v("weight-dma-source-differs-from-range-offset", "DMA of depth slice %d of %s reads from %d, range starts at %d" % (depth, cmd.in_tensor.name, d["src"], cmd.in_tensor.address + rs[0].offset))
+                delivered[str(cmd.out_tensor.equivalence_id)] = (d["dst"], d["length"], depth)
+            elif ev.kind == "op" and isinstance(cmd, NpuStripe) and cmd.weight_tensor is not None and cmd.weight_box is not None:
+                F = decode.Fields(ev.op)
+                got = delivered.get(str(cmd.weight_tensor.equivalence_id))
+                if got is None or not getattr(F, "weights", None):
+                    continue
+                dst, length, depth = got
+                c["buffered_weight_reads_checked"] = c.get("buffered_weight_reads_checked", 0) + 1
+                if F.weight_region != F.scale_region:
+                    ranges = list(F.weights)
+                else:
+                    ranges = list(F.weights) + list(F.scales)
+                for (addr, ln) in ranges:
+                    if ln and not (dst <= addr and addr + ln <= dst + length):
+                        mon.v("buffered-weight-range-outside-delivered-bytes", "%s reads [%d,+%d) of its weight buffer, the DMA of slice %d delivered [%d,+%d)" % (
+                            cmd.ps.primary_op.name, addr, ln, depth, dst, length))
+
+
 def run_campaign(case):
+    from vv import compile as vc
+
     mon = Monitor()
     mon.install()
     mon.label = "compile"
     mon.witness = {"family": case["family"], "nseed": case["nseed"], "cfg": case["cfg"]}
+    log = vc.StreamLog().install()
     c = campaign.Compiled(case)
     try:
+        check_streams(log, mon)
         cnt = mon.counters
         cnt["compilations"] = 1
         cnt["compiled_ok"] = 1 if c.art is not None else 0
@@ -444,7 +499,7 @@ def summarise(agg, tier):
         "thresholds": {"encode_calls": 3000 if q else 80000, "cache_hits": 300 if q else 6000, "fresh_reencodings": 300 if q else 6000, "scale_only_results": 60 if q else 1200,
                        "two_core_calls": 300 if q else 6000, "multi_slice_tensors": 150 if q else 3000, "campaign_multi_slice_tensors": 10 if q else 300,
                        "scale_records_checked": 30000 if q else 800000, "weight_sections_decoded": 3000 if q else 80000, "weights_compared": 2000000 if q else 50000000,
-                       "campaign_encode_calls": 1000 if q else 30000},
+                       "campaign_encode_calls": 1000 if q else 30000, "weight_dmas_checked": 200 if q else 6000, "buffered_weight_reads_checked": 200 if q else 6000},
         "rule": "direct drive: sequences of 14 encode requests per process on one accelerator (all six, two-core Ethos-U65-512 over-weighted) over conv / depthwise / fully-connected / "
                 "transpose-conv, int8 / uint8 / int16 IFM, per-tensor and per-channel scales, int32 / int64 biases incl. the 32/40-bit extremes, weight zero points (int, numpy scalar, array), "
                 "kernels up to 9x5, dilation 1-2, OFM block depths 4..128, depth-slice lists as propose_weight_buffering builds them; follow-up requests repeat, re-slice, or share the weight "
